@@ -1168,6 +1168,59 @@ def r12_key_objects(ctx, prog):
         r.undecided('crypto back end', 'createOSSLKey builders', 'only %d builders that convert key components were analysed (expected at least 4)' % n_builders, file='', line=0)
 
 
+def r13_no_delete_after_registration(ctx, prog):
+    """An object whose pointer was put into a member container is owned by that container (the destructor of the class deletes the elements): the same function does not delete the
+    object afterwards while the pointer is still in the container - the destructor would delete it a second time (the crash comes at C_Finalize, far from the cause)."""
+    r = ctx.rule('C17.R13', 'a pointer that was stored in a member container is not deleted while it is still in it (no double delete at tear-down)', floor=5, engine='E5 ownership typestate')
+    for f in sorted(prog.functions.values(), key=lambda f: (f['file'], f['line'])):
+        if f['body'] is None or not f.get('class') or unanalysable(f):
+            continue
+        regs = [c for c in calls(f['body']) if short(c.get('callee') or '') in ('push_back', 'insert', 'emplace_back') and c.get('recv') is not None
+                and ((c['recv'].get('k') == 'Member' and c['recv'].get('base', {}).get('k') == 'This') or (c['recv'].get('k') == 'Var' and c['recv'].get('kind') == 'field'))
+                and c.get('args') and c['args'][-1].get('k') == 'Var' and c['args'][-1].get('kind') in ('local', 'param')]
+        dels = [n for n in walk(f['body']) if n.get('k') == 'Delete' and n.get('e', {}).get('k') == 'Var']
+        if not regs:
+            continue
+        ptrs = {c['args'][-1]['name'] for c in regs}
+        if not any(d['e']['name'] in ptrs for d in dels):
+            for c in regs:
+                r.ok(f['qname'], 'registration of %s@%d' % (c['args'][-1]['name'], c['l']), 'never deleted in this function', file=f['file'], line=c['l'])
+            ctx.analysed(f)
+            continue
+        ctx.analysed(f)
+        found = {}
+
+        class A(Interp):
+            def on_call(self, e, st):
+                if e.get('k') == 'Call' and short(e.get('callee') or '') in ('push_back', 'insert', 'emplace_back') and any(e is c for c in regs):
+                    st.aut['in:' + e['args'][-1]['name']] = e['l']
+                elif e.get('k') == 'Call' and short(e.get('callee') or '') in ('erase', 'remove', 'clear', 'pop_back') and e.get('recv') is not None:
+                    for k_ in [k_ for k_ in st.aut if k_.startswith('in:')]:
+                        st.aut.pop(k_)
+
+            def on_assign(self, lhs, rhs, st):
+                # the variable now names another object (a new element of the enumeration)
+                if lhs is not None and lhs.get('k') == 'Var':
+                    st.aut.pop('in:' + lhs['name'], None)
+
+            def on_delete(self, e, st):
+                t = e.get('e') if e.get('k') == 'Delete' else e
+                if t is not None and t.get('k') == 'Var' and ('in:' + t['name']) in st.aut:
+                    found.setdefault((t['name'], e.get('l')), (st.aut['in:' + t['name']], st.show_path()))
+        a = A(f, prog).go()
+        r.paths += a.paths_returned
+        for c in regs:
+            p_ = c['args'][-1]['name']
+            site = 'registration of %s@%d' % (p_, c['l'])
+            hit = [(k_, v) for k_, v in found.items() if k_[0] == p_ and v[0] == c['l']]
+            if hit:
+                (_, dl), (rl, path) = hit[0]
+                r.violation(f['qname'], site, '%s is stored in a member container at line %s and deleted at line %s on the same path without being taken out again: the container keeps a dangling pointer and the destructor deletes the object a second time (crash in C_Finalize)' % (p_, rl, dl),
+                            file=f['file'], line=dl, path=path)
+            else:
+                r.ok(f['qname'], site, 'not deleted while registered', file=f['file'], line=c['l'])
+
+
 def run(ctx):
     prog = ctx.prog('ossl-file')
     r1_arrays(ctx, prog)
@@ -1184,6 +1237,7 @@ def run(ctx):
     if any(g['qname'].startswith('OSSL::') for g in prog.functions.values()):
         r11_conversion_helpers(ctx, prog)
     r12_key_objects(ctx, prog)
+    r13_no_delete_after_registration(ctx, prog)
 
 
 MUTANTS = [
